@@ -798,6 +798,177 @@ Proof.
     + intros j. apply (@chrows_head h d ch r F) in j. apply cget_none in G. tauto.
 Qed.
 
+(* ------------------------------------------------------------------ joins *)
+(* the join output may contain empty children (keys match at one level, nothing joins below):
+   well-formedness without the non-emptiness clause *)
+Fixpoint wfw (h d : nat) (t : ght) : Prop :=
+  match h, t with
+  | 0, Leaf rows => NoDup rows
+  | S h', Inner ch =>
+      NoDup (map fst ch) /\
+      Forall (fun kc => wfw h' (S d) (snd kc) /\
+                        Forall (fun r => head d r = fst kc) (riter h' (snd kc))) ch
+  | _, _ => False
+  end.
+
+Lemma riter_nodup_w h : forall d t, wfw h d t -> NoDup (riter h t).
+Proof.
+  induction h as [|h IH]; intros d t W.
+  - destruct t; [assumption|contradiction].
+  - destruct t as [|ch]; [contradiction|]. destruct W as [nd F]. cbn [riter].
+    induction ch as [|[k c] ch IHch]; [constructor|].
+    inversion nd as [|? ? n nd']; inversion F as [|? ? P F']; subst. cbn [flat_map snd].
+    destruct P as (W & H). cbn [fst snd] in *. apply NoDup_app_disjoint.
+    + apply (IH _ _ W).
+    + apply IHch; assumption.
+    + intros x ix iy. apply in_flat_map in iy as [[k' c'] [i ix']]. cbn in ix'.
+      rewrite Forall_forall in H, F'. specialize (H _ ix).
+      destruct (F' _ i) as (_ & H'). cbn in H'. rewrite Forall_forall in H'.
+      specialize (H' _ ix'). apply n. apply (in_map fst) in i. cbn in i. congruence.
+Qed.
+
+Definition join_rel (h d nk : nat) (A B : list row) (z : row) : Prop :=
+  exists x y, In x A /\ In y B /\ firstn h (skipn d x) = firstn h (skipn d y) /\ z = x ++ skipn nk y.
+
+Definition join_ok (h : nat) : Prop :=
+  forall d nk a b, wf h d a -> wf h d b ->
+    Forall (fun x => h + d <= length x) (riter h a) ->
+    Forall (fun x => h + d <= length x) (riter h b) ->
+    wfw h d (deep_join h nk a b) /\
+    forall z, In z (riter h (deep_join h nk a b)) <-> join_rel h d nk (riter h a) (riter h b) z.
+
+Lemma head_app d (x l : row) : d < length x -> head d (x ++ l) = head d x.
+Proof. intros L. unfold head. apply app_nth1, L. Qed.
+
+Section JoinChildren.
+  Variables (h d nk : nat) (ca cb : list (N * ght)).
+  Hypothesis IH : join_ok h.
+  Hypothesis nda : NoDup (map fst ca).
+  Hypothesis Fa : Forall (child_ok (wf h (S d)) (riter h) d) ca.
+  Hypothesis La : Forall (fun x => S h + d <= length x) (chrows h ca).
+
+  Let g := fun kv : N * ght =>
+             match cget ca (fst kv) with
+             | Some va => [(fst kv, deep_join h nk va (snd kv))]
+             | None => []
+             end.
+
+  Lemma join_children_in rest k c :
+    In (k, c) (flat_map g rest) <->
+    exists va vb, In (k, vb) rest /\ cget ca k = Some va /\ c = deep_join h nk va vb.
+  Proof.
+    rewrite in_flat_map. split.
+    - intros [[k' vb] [i j]]. unfold g in j. cbn [fst snd] in j.
+      destruct (cget ca k') as [va|] eqn:G; [|contradiction]. destruct j as [e|[]].
+      inversion e; subst. exists va, vb. tauto.
+    - intros (va & vb & i & G & e). exists (k, vb). split; [assumption|]. unfold g. cbn [fst snd].
+      rewrite G. left. congruence.
+  Qed.
+
+  Lemma join_children_keys rest : NoDup (map fst rest) -> NoDup (map fst (flat_map g rest)).
+  Proof.
+    induction rest as [|[k vb] rest IHr]; intros nd; [constructor|].
+    inversion nd as [|? ? n nd']; subst. cbn [flat_map]. unfold g at 1. cbn [fst snd].
+    destruct (cget ca k) as [va|]; cbn [app map fst]; [|apply IHr, nd'].
+    constructor; [|apply IHr, nd']. intros i. apply n. apply in_map_iff in i as [[k' c'] [e i]].
+    cbn in e. subst k'. apply join_children_in in i as (va' & vb' & i & _). apply (in_map fst) in i. exact i.
+  Qed.
+End JoinChildren.
+
+Lemma deep_join_spec h : join_ok h.
+Proof.
+  induction h as [|h IH]; intros d nk a b Wa Wb La Lb.
+  - destruct a as [ra|], b as [rb|]; try contradiction. cbn [deep_join wfw riter].
+    destruct (leaf_extend_spec (flat_map (fun x => map (fun y => x ++ skipn nk y) rb) ra)
+                (NoDup_nil row)) as [nd M].
+    split; [exact nd|]. intros z. unfold hs_new. rewrite M, in_flat_map. unfold join_rel. split.
+    + intros [[]|[x [ix iz]]]. apply in_map_iff in iz as [y [e iy]]. exists x, y. cbn. auto.
+    + intros (x & y & ix & iy & _ & e). right. exists x. split; [assumption|].
+      apply in_map_iff. exists y. auto.
+  - destruct a as [|ca], b as [|cb]; try contradiction.
+    destruct Wa as [nda Fa], Wb as [ndb Fb]. cbn [deep_join wfw riter] in *.
+    fold (chrows h ca) (chrows h cb) in *.
+    pose proof Fa as Fa0. pose proof Fb as Fb0. rewrite Forall_forall in Fa0, Fb0, La, Lb.
+    set (g := fun kv : N * ght =>
+                match cget ca (fst kv) with
+                | Some va => [(fst kv, deep_join h nk va (snd kv))]
+                | None => []
+                end).
+    (* facts about one joined pair of children *)
+    assert (Pair : forall k va vb, In (k, vb) cb -> cget ca k = Some va ->
+              wfw h (S d) (deep_join h nk va vb) /\
+              (forall z, In z (riter h (deep_join h nk va vb)) <->
+                         join_rel h (S d) nk (riter h va) (riter h vb) z) /\
+              (forall x, In x (riter h va) -> In x (chrows h ca) /\ head d x = k) /\
+              (forall y, In y (riter h vb) -> In y (chrows h cb) /\ head d y = k)).
+    { intros k va vb ib G. pose proof (cget_in _ _ G) as ia.
+      destruct (Fa0 _ ia) as (Wva & _ & Hva), (Fb0 _ ib) as (Wvb & _ & Hvb). cbn [fst snd] in *.
+      rewrite Forall_forall in Hva, Hvb.
+      assert (Sa : forall x, In x (riter h va) -> In x (chrows h ca)).
+      { intros x i. apply in_flat_map. exists (k, va). tauto. }
+      assert (Sb : forall y, In y (riter h vb) -> In y (chrows h cb)).
+      { intros y i. apply in_flat_map. exists (k, vb). tauto. }
+      destruct (IH (S d) nk va vb Wva Wvb) as [W M].
+      - apply Forall_forall. intros x i. specialize (La _ (Sa _ i)). lia.
+      - apply Forall_forall. intros y i. specialize (Lb _ (Sb _ i)). lia.
+      - split; [exact W|split; [exact M|split]]; intros x i; split; auto. }
+    split; [split|].
+    + apply join_children_keys, ndb.
+    + apply Forall_forall. intros [k c] i. apply (join_children_in h nk ca) in i as (va & vb & ib & G & ->).
+      destruct (Pair _ _ _ ib G) as (W & M & Ha & _). cbn [fst snd]. split; [exact W|].
+      apply Forall_forall. intros z iz. apply M in iz as (x & y & ix & _ & _ & ->).
+      destruct (Ha _ ix) as [ixa e]. specialize (La _ ixa). rewrite head_app by lia. exact e.
+    + intros z. rewrite in_flat_map. unfold join_rel. split.
+      * intros [[k c] [i iz]]. apply (join_children_in h nk ca) in i as (va & vb & ib & G & ->).
+        cbn [snd] in iz. destruct (Pair _ _ _ ib G) as (_ & M & Ha & Hb).
+        apply M in iz as (x & y & ix & iy & e & ->).
+        destruct (Ha _ ix) as [ixa ea], (Hb _ iy) as [iyb eb].
+        exists x, y. split; [exact ixa|split; [exact iyb|split; [|reflexivity]]].
+        specialize (La _ ixa). specialize (Lb _ iyb).
+        rewrite (@skipn_head d x), (@skipn_head d y) by lia. cbn [firstn]. congruence.
+      * intros (x & y & ix & iy & e & ->). pose proof (La _ ix) as Lx. pose proof (Lb _ iy) as Ly.
+        rewrite (@skipn_head d x), (@skipn_head d y) in e by lia. cbn [firstn] in e.
+        inversion e as [[e1 e2]].
+        pose proof (proj1 (@in_rows_crows h d ca x nda Fa) ix) as jx.
+        pose proof (proj1 (@in_rows_crows h d cb y ndb Fb) iy) as jy. unfold crows in jx, jy.
+        destruct (cget ca (head d x)) as [va|] eqn:Ga; [|contradiction].
+        destruct (cget cb (head d y)) as [vb|] eqn:Gb; [|contradiction].
+        apply cget_in in Gb. rewrite <- e1 in Gb.
+        exists (head d x, deep_join h nk va vb). split.
+        -- apply (join_children_in h nk ca). exists va, vb. auto.
+        -- cbn [snd]. destruct (Pair _ _ _ Gb Ga) as (_ & M & _). apply M.
+           exists x, y. auto.
+Qed.
+
+(* the output of the cartesian product: all rows inserted one by one *)
+Lemma insert_all h rs : forall t, wf h 0 t ->
+  wf h 0 (fold_left (fun t r => insert h 0 t r) rs t) /\
+  forall x, In x (riter h (fold_left (fun t r => insert h 0 t r) rs t)) <-> In x (riter h t) \/ In x rs.
+Proof.
+  induction rs as [|r rs IH]; intros t W; cbn [fold_left].
+  - split; [assumption|]. intros x. cbn. tauto.
+  - destruct (insert_spec h 0 t r W) as [W' M']. destruct (IH _ W') as [W2 M2].
+    split; [assumption|]. intros x. rewrite M2, M'. cbn. intuition.
+Qed.
+
+Lemma in_join_spec nk ha hb z :
+  In z (join_spec nk ha hb) <-> join_rel nk 0 nk ha hb z.
+Proof.
+  unfold join_spec, join_rel. rewrite in_flat_map. cbn [skipn]. split.
+  - intros [x [ix iz]]. apply in_map_iff in iz as [y [e iy]]. apply filter_In in iy as [iy k].
+    apply row_eqb_eq in k. exists x, y. auto.
+  - intros (x & y & ix & iy & k & e). exists x. split; [assumption|]. apply in_map_iff.
+    exists y. split; [auto|]. apply filter_In. split; [assumption|]. apply row_eqb_eq, k.
+Qed.
+
+Lemma in_cart_spec ha hb z :
+  In z (cart_spec ha hb) <-> exists x y, In x ha /\ In y hb /\ z = x ++ y.
+Proof.
+  unfold cart_spec. rewrite in_flat_map. split.
+  - intros [x [ix iz]]. apply in_map_iff in iz as [y [e iy]]. exists x, y. auto.
+  - intros (x & y & ix & iy & e). exists x. split; [assumption|]. apply in_map_iff. exists y. auto.
+Qed.
+
 (* ------------------------------------------------------------------ histories *)
 Lemma nodup_bag_eqb l1 l2 :
   NoDup l1 -> NoDup l2 -> (forall x, In x l1 <-> In x l2) -> bag_eqb l1 l2 = true.
@@ -862,7 +1033,7 @@ Lemma gstep_refines nk a p q o :
   gans_ok (snd (gstep nk p o)) (snd (gspec_step nk q o)).
 Proof.
   intros Lnk ok R2.
-  destruct o as [w r|w|w r|w|w pr|w r|w|w|w|w]; cbn [gstep gspec_step gop_ok] in *;
+  destruct o as [w r|w|w r|w|w pr|w r|w|w|w|w|w|w nko]; cbn [gstep gspec_step gop_ok] in *;
     pose proof (@Rg_sel nk a w p q R2) as Rw; pose proof (@Rg_sel nk a (negb w) p q R2) as Ro;
     pose proof Rw as (Ww & Mw & Fw); pose proof Ro as (Wo & Mo & Fo).
   - (* insert *)
@@ -928,6 +1099,25 @@ Proof.
       assert (i : In x (riter nk (sel w p))) by (apply Mw; left; reflexivity). rewrite E in i. exact i.
     + intros E. destruct (riter nk (sel w p)) as [|x l] eqn:E'; [reflexivity|]. exfalso.
       assert (i : In x (sel w q)) by (apply Mw; left; reflexivity). rewrite E in i. exact i.
+  - (* deep join *)
+    cbn [fst snd]. split; [assumption|]. left. cbn.
+    destruct (deep_join_spec nk 0 nk (sel w p) (sel (negb w) p) Ww Wo
+                (@Rg_len nk a _ _ Lnk Rw) (@Rg_len nk a _ _ Lnk Ro)) as [W' M'].
+    apply nodup_bag_eqb; [apply (riter_nodup_w nk 0 _ W')|apply distinct_nodup|].
+    intros z. rewrite in_distinct, in_join_spec, M'. unfold join_rel.
+    split; intros (x & y & ix & iy & e & ->); exists x, y;
+      (split; [apply Mw, ix|split; [apply Mo, iy|auto]]).
+  - (* cartesian product *)
+    cbn [fst snd]. split; [assumption|]. left. cbn. unfold cart_product.
+    destruct (insert_all nko (flat_map (fun x => map (fun y => x ++ y) (riter nk (sel (negb w) p)))
+                                       (riter nk (sel w p))) (empty nko) (wf_empty nko 0)) as [W' M'].
+    apply nodup_bag_eqb; [apply (riter_nodup nko 0 _ W')|apply distinct_nodup|].
+    intros z. rewrite in_distinct, M', riter_empty.
+    change (flat_map (fun x => map (fun y => x ++ y) (riter nk (sel (negb w) p))) (riter nk (sel w p)))
+      with (cart_spec (riter nk (sel w p)) (riter nk (sel (negb w) p))).
+    rewrite !in_cart_spec. split.
+    + intros [[]|(x & y & ix & iy & ->)]. exists x, y. split; [apply Mw, ix|split; [apply Mo, iy|reflexivity]].
+    + intros (x & y & ix & iy & ->). right. exists x, y. split; [apply Mw, ix|split; [apply Mo, iy|reflexivity]].
 Qed.
 
 Lemma grun_refines nk a ops : nk <= a ->
@@ -992,3 +1182,17 @@ Qed.
 Lemma c08_holds_b_spec nk ops impl :
   C08_holds_b nk ops impl = true <-> Forall2 gans_equiv impl (gspec_run nk ops).
 Proof. apply ganswers_eqb_spec. Qed.
+
+Lemma cart_product_spec h nko a b :
+  wf nko 0 (cart_product h nko a b) /\
+  forall z, In z (riter nko (cart_product h nko a b)) <->
+            exists x y, In x (riter h a) /\ In y (riter h b) /\ z = x ++ y.
+Proof.
+  unfold cart_product.
+  destruct (insert_all nko (flat_map (fun x => map (fun y => x ++ y) (riter h b)) (riter h a))
+                       (empty nko) (wf_empty nko 0)) as [W M].
+  split; [exact W|]. intros z. rewrite M, riter_empty.
+  change (flat_map (fun x => map (fun y => x ++ y) (riter h b)) (riter h a))
+    with (cart_spec (riter h a) (riter h b)).
+  rewrite in_cart_spec. cbn. tauto.
+Qed.
